@@ -28,6 +28,8 @@ def _k1_job(job):
     if forms: texts = ['TYPE\n  al%d : B%d%s;\nEND_TYPE\n' % (i, i, ' := dflt' if forms[i] else '') for i in range(K)]
     section = fixed.get('section', 'VAR') if real == 'fb' else 'VAR'       # the variable section holding the instances (VAR_INPUT and VAR_OUTPUT instances are contained as well)
     if real == 'fb' and section != 'VAR': texts = TC.source_fb(K, section=section)
+    dup = bool(fixed.get('dup')) if real == 'fb' else False       # every instance declared twice (two variables of one function block type: a duplicated edge, not a cycle)
+    if dup: texts = TC.source_fb(K, dup=True)
     decl = fixed.get('decl') if real == 'alias' else None        # 'array': `al : ARRAY[1..2] OF base;`   'subrange': `al : base(1..2);`  (other declaration kinds that reference a type)
     if decl: texts = [_alias_text(decl, i, 'B%d' % i) for i in range(K)]
     lib0, text = TC.build(ctx, texts)
@@ -102,7 +104,7 @@ def _k1_job(job):
         if r == z3.sat:
             m = s.model(); edges = edges_of(m); cyc = TC.reach_cyclic(K, edges)
             up = sorted((k_[1], k_[2]) for k_, e in sym.items() if isinstance(k_, tuple) and len(k_) == 3 and z3.is_true(m.eval(e, True)) and (k_[1], k_[2]) in edges)
-            role_g = '%s/K%d/%s%s' % (real + (('-' + ''.join(k[0] for k in kinds)) if kinds else '') + ('-with-defaults-' + ''.join('1' if f else '0' for f in forms) if forms else '') + (('-' + decl) if decl else '') + (('-' + section.lower()) if section != 'VAR' else ''), K, '_'.join('%d%d' % e for e in edges) or 'empty', ('/respelled-' + '_'.join('%d%d' % e for e in up)) if up else ''); src = _source(real, K, edges, up, forms, decl, section, kinds)
+            role_g = '%s/K%d/%s%s' % (real + (('-' + ''.join(k[0] for k in kinds)) if kinds else '') + ('-with-defaults-' + ''.join('1' if f else '0' for f in forms) if forms else '') + (('-' + decl) if decl else '') + (('-' + section.lower()) if section != 'VAR' else '') + ('-twice' if dup else ''), K, '_'.join('%d%d' % e for e in edges) or 'empty', ('/respelled-' + '_'.join('%d%d' % e for e in up)) if up else ''); src = _source(real, K, edges, up, forms, decl, section, kinds, dup)
             if pr.panic:
                 part.add('C07/K1/panic/' + role_g, 'toposort panics on %s graph %s: %s' % (real, edges, pr.panic.msg), {'realisation': real, 'edges': edges, 'source': src}, ('graph', (src, cyc)))
             else:
@@ -112,7 +114,7 @@ def _k1_job(job):
         else:
             s2 = z3.Solver(); s2.add(*pr.pc)
             if s2.check() == z3.sat and len(part.validate) < 1:
-                edges = edges_of(s2.model()); part.validate.append(('graph', (_source(real, K, edges, (), forms, decl, section, kinds), TC.reach_cyclic(K, edges))))
+                edges = edges_of(s2.model()); part.validate.append(('graph', (_source(real, K, edges, (), forms, decl, section, kinds, dup), TC.reach_cyclic(K, edges))))
                 if len(part.samples) < 1: part.samples.append({'realisation': real, 'K': K, 'edges': edges, 'verdict': 'P0010' if got_rec else 'no P0010'})
     M.explore(entry, on_path)
     part.queries += M.stats['smt']; part.encoded = set(M.encoded); part.models = set(M.models_used)
@@ -123,7 +125,7 @@ def _alias_text(decl, i, base):
     if decl == 'subrange': return 'TYPE\n  al%d : %s(1..2);\nEND_TYPE\n' % (i, base)
     raise ValueError(decl)
 
-def _source(real, K, edges, upper=(), forms=None, decl=None, section='VAR', kinds=None):
+def _source(real, K, edges, upper=(), forms=None, decl=None, section='VAR', kinds=None, dup=False):
     names = _names(real, K, kinds); E = set(edges); U = set(upper)
     nm = lambda i, j: (names[j].upper() if (i, j) in U else names[j])
     if real == 'mixed':
@@ -133,7 +135,7 @@ def _source(real, K, edges, upper=(), forms=None, decl=None, section='VAR', kind
             else: out += 'TYPE\n  st%d : STRUCT\n%s  END_STRUCT;\nEND_TYPE\n' % (i, ''.join('    e%d_%d : %s;\n' % (i, j, nm(i, j) if (i, j) in E else 'INT') for j in range(K)))
         return out
     if real == 'fb':
-        return ''.join('FUNCTION_BLOCK fb%d\n%s\n%sEND_VAR\nEND_FUNCTION_BLOCK\n' % (i, section, ''.join('  v%d_%d : %s;\n' % (i, j, nm(i, j) if (i, j) in E else 'INT') for j in range(K))) for i in range(K))
+        return ''.join('FUNCTION_BLOCK fb%d\n%s\n%sEND_VAR\nEND_FUNCTION_BLOCK\n' % (i, section, ''.join('  v%d_%d : %s;\n' % (i, j, nm(i, j) if (i, j) in E else 'INT') + ('  w%d_%d : %s;\n' % (i, j, nm(i, j) if (i, j) in E else 'INT') if dup else '') for j in range(K))) for i in range(K))
     if real == 'struct':
         return ''.join('TYPE\n  st%d : STRUCT\n%s  END_STRUCT;\nEND_TYPE\n' % (i, ''.join('    e%d_%d : %s;\n' % (i, j, nm(i, j) if (i, j) in E else 'INT') for j in range(K))) for i in range(K))
     d = dict(edges)
@@ -170,6 +172,9 @@ def k1(ctx, kr):
     # diagnostic there would ask for more than it states (observed, recorded in DESIGN.md §11 as outside the property).
     # function block instances held in VAR_INPUT / VAR_OUTPUT sections are contained just like those in VAR (every digraph on 2 nodes)
     for section in ('VAR_INPUT', 'VAR_OUTPUT'): jobs.append(('fb', 2, {'section': section}))
+    # every instance declared twice: a duplicated reference is not a cycle (2 nodes: all 16 graphs; 3 nodes: acyclic shapes are the point, all graphs run)
+    jobs.append(('fb', 2, {'dup': True}))
+    for bits in range(16): jobs.append(('fb', 3, dict({c: bool(bits >> n & 1) for n, c in enumerate([(i, j) for i in range(3) for j in range(3)][:4])}, dup=True)))
     # references written in another letter case than the declaration (2 nodes, one case bit per reference)
     for real in ('fb', 'struct'):
         for bits in range(4): jobs.append((real, 2, {'case': True, (0, 0): bool(bits & 1), (0, 1): bool(bits & 2)}))
